@@ -2,6 +2,7 @@ package main
 
 import (
 	"fmt"
+	"github.com/akrylysov/pogreb"
 	"sort"
 	"strings"
 	"time"
@@ -221,6 +222,14 @@ func runC09(c *explore.Ctx) {
 		return
 	}
 	c09FaultyClose(c)
+	if c.Expired() || c.NViolations() > 0 {
+		return
+	}
+	c09AfterFailedCompact(c)
+	if c.Expired() || c.NViolations() > 0 {
+		return
+	}
+	c09BackupCopy(c)
 }
 
 // uncleanVariant returns the base with its (durable) image left unclean: the history's first Open is a recovery.
@@ -848,6 +857,184 @@ func c09FaultyCloseCase(c *explore.Ctx, base *explore.Base, bname, cfg string, p
 		return true
 	})
 	return false, cerr, bad
+}
+
+// c09AfterFailedCompact: a Compact that fails half-way (transient I/O error at each of its mutating calls; it may already
+// have sealed the segments it picked, the current one included) is followed by a Close that returns nil: from then on
+// a power failure must not lose anything - "every history before the Close" includes failed maintenance.
+func c09AfterFailedCompact(c *explore.Ctx) {
+	for _, bc := range [][2]string{{"S4", "ROLL"}, {"S2", "ROLL"}} {
+		base, err := explore.GetBase(bc[0], cfgPL(bc[1]), 0)
+		if err != nil {
+			c.HarnessError("%v", err)
+		}
+		explore.PinSeed(0)
+		memo := recMemo{}
+		for pi, pre := range [][]explore.Op{{{Kind: explore.Put, Key: "a"}}, {{Kind: explore.Delete, Key: "a"}, {Kind: explore.Put, Key: "e"}}} {
+			if !c.Mine() {
+				continue
+			}
+			for n := 1; n < 200; n++ {
+				if c.Expired() || c.NViolations() > 0 {
+					return
+				}
+				done, bad := c09AfterFailedCompactCase(c, base, bc[0], bc[1], pre, n, memo)
+				if done {
+					break
+				}
+				if bad != "" {
+					c.Violation(explore.Violation{Key: fmt.Sprintf("close-after-failed-compact base=%s cfg=%s pre=%d fault@%d", bc[0], bc[1], pi, n),
+						What: fmt.Sprintf("base %s/%s, [%s] then Compact with a transient I/O error at its mutating file-system call #%d, then Close (returned nil), then a power failure: %s", bc[0], bc[1], explore.WordString(pre), n, bad), Size: n,
+						Replay: map[string]interface{}{"kind": "failcompact09", "base": bc[0], "cfg": bc[1], "pre": opsJSON(pre), "fault_at": n, "observed": bad}})
+					return
+				}
+			}
+		}
+	}
+}
+
+func c09AfterFailedCompactCase(c *explore.Ctx, base *explore.Base, bname, cfg string, pre []explore.Op, n int, memo recMemo) (done bool, bad string) {
+	s := base.NewSess()
+	s.FS.Record = true
+	if err := s.OpenDB(); err != nil {
+		c.HarnessError("Open: %v", err)
+	}
+	for _, o := range pre {
+		_ = s.Apply(o)
+	}
+	before := s.FS.Mutations()
+	s.FS.FailAt = before + n
+	_ = s.Apply(explore.Op{Kind: explore.Compact})
+	s.FS.FailAt = 0
+	if s.FS.Mutations() < before+n {
+		_ = s.ProtectedClose()
+		return true, ""
+	}
+	c.Add("executions", 1)
+	c.Add("failed_compact_then_close_cases", 1)
+	if s.Panicked != "" {
+		return false, s.Panicked
+	}
+	// what the session shows before Close is what Close must make durable (a failed compaction may or may not have
+	// moved records; the contents are unchanged by definition)
+	if cerr := s.ProtectedClose(); cerr != nil {
+		return false, "" // Close reported an error: it promised nothing (C06's business)
+	}
+	if s.Panicked != "" {
+		return false, s.Panicked
+	}
+	log := s.FS.Log
+	opts := simfs.PowerLossOpts{ReduceUnread: true, Dir: explore.DBPath, LockName: "lock", SegmentExt: refmodel.SegmentExt, MaxPerPos: 1024}
+	simfs.PowerLossImages(base.Image, log, len(log), len(log), opts, func(im simfs.Image) bool {
+		c.Add("images", 1)
+		rec, fresh := memo.get(im.FS, base, explore.RecoverOpts{})
+		if fresh {
+			c.Add("recoveries", 1)
+			c.Distinct("image", explore.Hash64("fcc", bname, cfg, im.FS.Hash()))
+		}
+		switch {
+		case rec.OpenErr != "":
+			bad = "Open failed: " + rec.OpenErr
+		case rec.Internal != "":
+			bad = "inconsistent: " + rec.Internal
+		case !s.Model.Equal(rec.Contents):
+			bad = "the contents differ from what was closed: " + s.Model.Diff(rec.Contents, s.KeyName)
+		}
+		if bad != "" {
+			bad = fmt.Sprintf("surviving-prefix choice {%s}: %s", im.Desc, bad)
+			return false
+		}
+		return true
+	})
+	return false, bad
+}
+
+// c09BackupCopy: the directory a Backup produced (file data never synced by Backup) is opened as a database of its own
+// (lock file present: the Open is a recovery, which seals every segment but the newest), optionally written to, and
+// closed; Close returns nil: from then on a power failure must leave exactly the closed contents in THAT directory.
+func c09BackupCopy(c *explore.Ctx) {
+	for _, bc := range [][2]string{{"S2", "ROLL"}, {"S4", "ROLL"}, {"CH", "BIGC"}} {
+		for wi, w := range [][]explore.Op{{}, {{Kind: explore.Put, Key: "W"}}} {
+			if !c.Mine() {
+				continue
+			}
+			base, err := explore.GetBase(bc[0], cfgPL(bc[1]), 0)
+			if err != nil {
+				c.HarnessError("%v", err)
+			}
+			explore.PinSeed(0)
+			bad := c09BackupCopyCase(c, base, bc[0], bc[1], len(w) > 0)
+			if bad != "" {
+				c.Violation(explore.Violation{Key: fmt.Sprintf("backup-copy base=%s cfg=%s write=%d", bc[0], bc[1], wi),
+					What: fmt.Sprintf("base %s/%s: [Put, Backup, Close]; the backup directory is opened (recovery), %d Put(s), Close returned nil, then a power failure: %s", bc[0], bc[1], len(w), bad), Size: 1,
+					Replay: map[string]interface{}{"kind": "backupcopy09", "base": bc[0], "cfg": bc[1], "write": len(w) > 0, "observed": bad}})
+				return
+			}
+		}
+	}
+}
+
+func c09BackupCopyCase(c *explore.Ctx, base *explore.Base, bname, cfg string, write bool) (bad string) {
+	s := base.NewSess()
+	s.FS.Record = true
+	if err := s.OpenDB(); err != nil {
+		c.HarnessError("Open: %v", err)
+	}
+	if err := s.Apply(explore.Op{Kind: explore.Put, Key: base.Alpha[0]}); err != nil {
+		return "Put: " + err.Error()
+	}
+	if err := s.Apply(explore.Op{Kind: explore.Backup}); err != nil {
+		return "Backup: " + err.Error()
+	}
+	dir := s.LastBackup
+	want := s.Model.Clone()
+	if err := s.ProtectedClose(); err != nil {
+		return "Close of the source: " + err.Error()
+	}
+	defer func() {
+		if r := recover(); r != nil {
+			bad = fmt.Sprintf("panic: %v", r)
+		}
+	}()
+	db2, err := pogreb.Open(dir, base.Cfg.Options(s.FS))
+	if err != nil {
+		return "Open of the backup directory: " + err.Error()
+	}
+	if write {
+		k, v := base.Keys[base.Alpha[1]], "copy-write"
+		if err := db2.Put(k, []byte(v)); err != nil {
+			return "Put into the opened backup: " + err.Error()
+		}
+		want[string(k)] = v
+	}
+	if err := db2.Close(); err != nil {
+		return "" // Close reported an error: it promised nothing
+	}
+	c.Add("executions", 1)
+	c.Add("backup_copy_cases", 1)
+	log := s.FS.Log
+	opts := simfs.PowerLossOpts{ReduceUnread: true, Dir: dir, LockName: "lock", SegmentExt: refmodel.SegmentExt, MaxPerPos: 1024}
+	simfs.PowerLossImages(base.Image, log, len(log), len(log), opts, func(im simfs.Image) bool {
+		c.Add("images", 1)
+		sub := im.FS.SubImage(dir, explore.DBPath)
+		rec := explore.RecoverImage(sub, base.Cfg, base.Keys, base.Probe, base.Seed, explore.RecoverOpts{})
+		c.Add("recoveries", 1)
+		c.Distinct("image", explore.Hash64("bc", bname, cfg, sub.Hash()))
+		switch {
+		case rec.OpenErr != "":
+			bad = "Open failed: " + rec.OpenErr
+		case rec.Internal != "":
+			bad = "inconsistent: " + rec.Internal
+		case !want.Equal(rec.Contents):
+			bad = "the contents differ from what was closed: " + want.Diff(rec.Contents, s.KeyName)
+		}
+		if bad != "" {
+			bad = fmt.Sprintf("surviving-prefix choice {%s}: %s", im.Desc, bad)
+			return false
+		}
+		return true
+	})
+	return bad
 }
 
 func runC06Conc(c *explore.Ctx) {
